@@ -316,17 +316,18 @@ FROM foo;
                     },
                     TypeCastingStyle::Convert => match current_type_casting_style {
                         TypeCastingStyle::Cast => {
-                            let cast_content = get_children(functional_context.segment().children(
+                            let segments = get_children(functional_context.segment().children(
                                 Some(|it: &ErasedSegment| it.is_type(SyntaxKind::Bracketed)),
                             ));
 
                             fixes = convert_fix_list(
                                 context.tables,
                                 context.segment.clone(),
-                                cast_content[1].clone(),
-                                cast_content[0].clone(),
+                                segments[1].clone(),
+                                segments[0].clone(),
                                 None,
                             );
+                            cast_content = Some(segments);
                         }
                         TypeCastingStyle::Shorthand => {
                             let cast_content = get_children(functional_context.segment());
